@@ -232,7 +232,39 @@ Fixpoint lookup_key (k : Z) (l : list (Z * Z)) : option Z :=
   end.
 
 Definition recog_argon2_rest (pre : bytes) (version : Z) (params salt sum : bytes) : option rfields :=
-  match pieces_members params with
+  match split_on comma [] params with
+  | [a; b; c] =>
+    match member_num a, member_num b, member_num c with
+    | Some (ka, va), Some (kb, vb), Some (kc, vc) =>
+      if negb (ka =? kb) && negb (ka =? kc) && negb (kb =? kc)
+         && negb (has_comma salt) && negb (has_comma sum)
+         && in_alpha EncBase64 salt && in_alpha EncBase64 sum && negb (nil_b sum) then
+        let l := [(ka, va); (kb, vb); (kc, vc)] in
+        match lookup_key 109 l, lookup_key 116 l, lookup_key 112 l with
+        | Some m, Some t, Some p => Some (mk_r salt [m; t; p; version] pre false sum)
+        | _, _, _ => None
+        end
+      else None
+    | _, _, _ => None
+    end
   | _ => None
-  end
-where "'pieces_members' x" := (split_on comma [] x) (only parsing).
+  end.
+
+Definition recog_argon2_body (pre : bytes) (h : bytes) : option rfields :=
+  let body := skipn (length pre) h in
+  match pieces dollar [] body with
+  | [ver; params; salt; sum] =>
+    if has_prefix k_v ver && negb (has_comma ver) && in_alpha EncHash (skipn 2 ver) then
+      match ParseUint (skipn 2 ver) 10 8 with
+      | inl v => recog_argon2_rest pre (if v =? 0 then 16 else v) params salt sum
+      | inr _ => None
+      end
+    else None
+  | [params; salt; sum] => recog_argon2_rest pre 16 params salt sum
+  | _ => None
+  end.
+Definition recog_argon2 (h : bytes) : option rfields :=
+  if has_prefix p_argon2id h then recog_argon2_body p_argon2id h
+  else if has_prefix p_argon2i h then recog_argon2_body p_argon2i h
+  else if has_prefix p_argon2d h then recog_argon2_body p_argon2d h
+  else None.
